@@ -58,6 +58,10 @@ pub struct GenCfg {
     /// bytes cross every buffer size a reader or writer might use
     #[serde(default)]
     pub big_dict: bool,
+    /// the first document has a URI an editor could legally send but nobody expects: a very long
+    /// path with percent-encoded slashes and dot-dot segments (a buffer only, never on disk)
+    #[serde(default)]
+    pub hostile_uris: bool,
     /// C08: after every text change, request code actions at every position inside every
     /// published diagnostic range (bounded)
     #[serde(default)]
@@ -74,6 +78,11 @@ pub struct GenCfg {
     /// some documents are large (tens of thousands of characters)
     #[serde(default)]
     pub big_docs: bool,
+}
+
+/// Does the editor keep this document in a file (as opposed to an unsaved or virtual buffer)?
+fn on_disk_doc(d: &Doc) -> bool {
+    d.uri.starts_with("file:") && !d.path.contains("/../")
 }
 
 pub fn doc_path(name: &str) -> String {
@@ -107,6 +116,15 @@ pub fn initial_docs(cfg: &GenCfg, rng: &mut Rng) -> Vec<Doc> {
             uri = format!("untitled:Untitled-{i}");
         }
         let _ = rng;
+        let (uri, path) = if cfg.hostile_uris && i == 0 {
+            let long = "deeply-nested-project-directory-name-".repeat(6);
+            (
+                format!("file://{WORLD}/ws/{long}/sub%2F..%2F..%2F..%2Fhome%2Fnotes.{ext}"),
+                format!("{WORLD}/ws/{long}/sub/../../../home/notes.{ext}"),
+            )
+        } else {
+            (uri, path)
+        };
         docs.push(Doc { uri, path, lang, open: false, text: String::new(), version: 0, disk: None, history: vec![], known_to_server: false, last_change_step: 0, dict_tainted: false });
     }
     docs
@@ -250,7 +268,7 @@ impl Generator {
         let ws = [
             if closed_docs.is_empty() { 0 } else { w.open },
             if open_docs.is_empty() { 0 } else { w.change },
-            if open_docs.iter().any(|d| d.uri.starts_with("file:")) { w.save } else { 0 },
+            if open_docs.iter().any(|d| on_disk_doc(d)) { w.save } else { 0 },
             if open_docs.is_empty() { 0 } else { w.close },
             if c.docs.iter().any(|d| d.disk.is_some()) { w.delete } else { 0 },
             w.config,
@@ -282,7 +300,7 @@ impl Generator {
                     (Some(t), true) => (t.clone(), vec![]),
                     _ => {
                         let t = corpus::wrap(&lang, &corpus::paragraphs(rng), rng);
-                        let pre = if rng.chance(7, 10) && d.uri.starts_with("file:") { vec![FsAct::Write { path: d.path.clone(), content: t.clone() }] } else { vec![] };
+                        let pre = if rng.chance(7, 10) && on_disk_doc(d) { vec![FsAct::Write { path: d.path.clone(), content: t.clone() }] } else { vec![] };
                         (t, pre)
                     }
                 };
@@ -312,7 +330,7 @@ impl Generator {
                 msg(wait, first)
             }
             2 => {
-                let savable: Vec<&Doc> = open_docs.iter().copied().filter(|d| d.uri.starts_with("file:")).collect();
+                let savable: Vec<&Doc> = open_docs.iter().copied().filter(|d| on_disk_doc(d)).collect();
                 let d = *rng.pick(&savable);
                 ScriptEntry {
                     wait_quiet: wait,
@@ -356,6 +374,34 @@ impl Generator {
                         },
                     }
                 }
+            }
+            5 if rng.chance(1, 8) => {
+                // a settings object the server must reject as a whole: it keeps what it has
+                let mut j = c.settings.to_json();
+                let bad: Value = match rng.below(6) {
+                    0 => {
+                        j["harper-ls"]["diagnosticSeverity"] = json!("loud");
+                        j
+                    }
+                    1 => {
+                        j["harper-ls"]["dialect"] = json!(7);
+                        j
+                    }
+                    2 => {
+                        j["harper-ls"]["linters"] = json!("all");
+                        j
+                    }
+                    3 => {
+                        j["harper-ls"]["isolateEnglish"] = json!("yes");
+                        j
+                    }
+                    4 => {
+                        j["harper-ls"]["userDictPath"] = json!(5);
+                        j
+                    }
+                    _ => json!("not an object"),
+                };
+                ScriptEntry { wait_quiet: wait, op: Op::Msg { json: notif("workspace/didChangeConfiguration", json!({"settings":bad})), pre: vec![], set_settings: None } }
             }
             5 => {
                 let s = mutate_settings(&c.settings, &self.cfg, rng);
